@@ -89,6 +89,8 @@ def gen(rng, tier, ctx):
                     op["save"] = True
                 elif f < 0.4:
                     op["interrupt"] = {"frac": rng.random(), "phase": rng.choice(["report", "any"])}
+                    if rng.random() < 0.4:
+                        op["interrupt"]["exc"] = "MemoryError"
                     op["save"] = True
             opl.append(op)
             continue
@@ -119,8 +121,11 @@ def gen(rng, tier, ctx):
                                         "errno": rng.choice(["EIO", "EACCES", "ENOENT"])}]
                 elif f < 0.6:
                     op["interrupt"] = {"frac": rng.random(), "phase": rng.choice(["report", "report", "any"])}
-                    if rng.random() < 0.5:
+                    r2 = rng.random()
+                    if r2 < 0.4:
                         op["kill"] = {"keep": rng.choice([0.0, rng.random(), 1.0])}
+                    elif r2 < 0.65:
+                        op["interrupt"]["exc"] = "MemoryError"      # a failing allocation instead of Ctrl-C
             opl.append(op)
             if (op.get("fs_faults") or op.get("interrupt")) and rng.random() < 0.8:
                 opl.append({"op": "cli", "dir": pth[0], "stem": pth[1], "ext": pth[2], "save": True,
@@ -348,14 +353,14 @@ def execute(spec, w, ctx):
                 if opens:
                     lo = opens[0]
             at = lo + int(intr["frac"] * max(0, total - lo))
-            cfg["interrupt"] = {"at": at}
+            cfg["interrupt"] = {"at": at, "exc": intr.get("exc")}
             cfg["step_cap"] = 40 * cfg["step_cap"]
             if op.get("kill"):
                 cfg["kill"] = op["kill"]
             before = w.fs.snapshot()
         cap = {}
         out = run_cli(op, cfg, cap)
-        faulted = bool(out["fs_fired"]) or out["status"] == "interrupt"
+        faulted = bool(out["fs_fired"]) or out["status"] == "interrupt" or bool(out.get("injected"))
         events.append([i_op, "cli", rel, out["status"], out["steps"], out.get("etype"), out["fs_fired"], out.get("site")])
         shapes.append("%s%s%s" % (kind[0], "s" if op.get("save") else "-", "F" if faulted else ""))
         if kind == "lib":
@@ -422,7 +427,8 @@ def _judge(i_op, op, out, cap, before, w, denoted, clean, inputs=()):
             if v is not None and not clean:
                 v["sig"]["class"] = "silent-failure:" + v["sig"]["class"]
                 v["inv"] = v["sig"]["inv"] = "I16.3"
-                v["msg"] = "invocation exited normally although an I/O fault fired (%s), yet: %s" % (out["fs_fired"], v["msg"])
+                v["msg"] = "invocation exited normally although a fault was injected (%s), yet: %s" % (
+                    out["fs_fired"] or out.get("injected") or out["status"], v["msg"])
             if v is None:
                 w.probe("reports-verified")
                 _time_probe(w, text, ret)
